@@ -261,7 +261,7 @@ def main(tier: str, seed: int) -> int:
         traces.append(run_game(rec, name, scenarios.shipped(name), 5 if tier == "quick" else 30))
         chk.add_case({"s": name})
     res = tlc.validate("EpisodeTrace", traces)
-    common.judge_traces(chk, "Episode", traces, res, sig_fn)
+    common.judge_traces(chk, "Episode", traces, res, sig_fn, selftest="EpisodeTrace")
     for tr in traces[:2]:
         chk.sample({"scenario": tr["meta"]["scenario"], "schedule": tr["stimulus"].get("schedule", [])[:10], "events": tr["ev"][:8]})
     chk.assumptions += [
